@@ -140,7 +140,7 @@ Definition esc_char (a : ascii) : bytes :=
 
 Definition esc_for_log (p : bytes) : bytes := flat_map esc_char p.
 
-(* input class of finding C04-F1: the cookie path has a byte >= 128 *)
+(* input class of former finding C04-F1 (repaired): the cookie path has a byte >= 128 *)
 Definition high_byte (p : bytes) : bool := existsb (fun a => 128 <=? code a) p.
 Definition cookie_path_high (e : env) : bool :=
   match pi_cookiefile (e_pi e) with Some p => high_byte p | None => false end.
@@ -196,7 +196,7 @@ Section Choice.
     end.
   Definition later_pw : option bytes :=
     match e_provider e with PLater (Some pw) => nonempty pw | _ => None end.
-  (* finding C04-F1: a usable cookie whose path has a byte >= 128 *)
+  (* former finding C04-F1: a usable cookie whose path has a byte >= 128 *)
   Definition high_path_valid_cookie : bool :=
     cookie_path_high e && match good_cookie with Some _ => true | None => false end.
 End Choice.
